@@ -68,6 +68,29 @@ Theorem bad_flag_rejects : forall pre post, forallb is_flag pre = true ->
 Proof. exact CmdlineProofs.bad_flag_rejects. Qed.
 Print Assumptions bad_flag_rejects.
 
+(* every phase of a session (the -c command, the script, the repl a failed script drops into, the repl after -i,
+   the plain repl) runs on the interpreter the command line asked for *)
+Theorem session_one_interpreter : forall l fails phs ph k,
+  session l fails = Some phs -> In (ph, k) phs -> k = run_cmdline l.
+Proof. exact CmdlineProofs.session_one_interpreter. Qed.
+Print Assumptions session_one_interpreter.
+
+Theorem session_sandboxed : forall pre post fails phs ph k, forallb is_flag pre = true ->
+  last_sandbox false pre = true ->
+  session (pre ++ APlain :: post) fails = Some phs -> In (ph, k) phs -> k = OSandboxed.
+Proof. exact CmdlineProofs.session_sandboxed. Qed.
+Print Assumptions session_sandboxed.
+
+Example failed_script_drops_into_repl :
+  session [ASandbox None; ABool; APlain] true = Some [(PhScript, OSandboxed); (PhReplAfterFailedScript, OSandboxed)].
+Proof. reflexivity. Qed.
+Example exitonfail_ends_the_session :
+  session [ASandbox None; AExitOnFail true; APlain] true = Some [(PhScript, OSandboxed)].
+Proof. reflexivity. Qed.
+Example interactive_after_script :
+  session [AInteractive true; ASandbox None; APlain; ASandbox (Some false)] false = Some [(PhScript, OSandboxed); (PhReplAfterScript, OSandboxed)].
+Proof. reflexivity. Qed.
+
 Example cmdline_seed_shape : run_cmdline [ASandbox None; APlain; ABool] = OSandboxed.
 Proof. reflexivity. Qed.
 Example cmdline_flag_after_script_is_an_argument : run_cmdline [APlain; ASandbox None] = OOpen.
